@@ -18,6 +18,7 @@ func init() {
 	kinds[0x1101] = run1101
 	kinds[0x1102] = run1102
 	kinds[0x1103] = run1103
+	kinds[0x1104] = run1104
 	props["C11"] = genC11
 }
 
@@ -34,7 +35,16 @@ func run1102(in Sx) Sx {
 	for _, p := range in.L[2].L {
 		exc = append(exc, p.Str())
 	}
-	ffs, err := fsutil.NewFilterFS(&MemFS{Roots: view}, &fsutil.FilterOpt{IncludePatterns: inc, ExcludePatterns: exc})
+	var follow []string
+	if len(in.L) > 3 {
+		follow = sxStrings(in.L[3])
+	}
+	if len(follow) == 0 {
+		follow = nil
+	}
+	// c18FS: MemFS with the real walker's treatment of ENOENT / ENOTDIR returned by a callback
+	// (FollowLinks walks sub-targets through the FS it is given)
+	ffs, err := fsutil.NewFilterFS(&c18FS{m: &MemFS{Roots: view}}, &fsutil.FilterOpt{IncludePatterns: inc, ExcludePatterns: exc, FollowPaths: follow})
 	if err != nil {
 		return L(N(9), N(9), N(0), L(), L(), L(), L())
 	}
@@ -79,8 +89,102 @@ func run1102(in Sx) Sx {
 		}
 	}
 	rec("", view)
-	tbl := pmatchTable(append(append([]string{}, inc...), exc...), withPrefixes(viewPaths(view)))
-	return L(errClass(res.SendErr), errClass(res.RecvErr), Bool(res.Hung), L(announced...), RawListSx(snap), L(opens...), L(tbl...))
+	raws := append(append([]string{}, inc...), exc...)
+	fl := L()
+	if follow != nil { // what the real FollowLinks answers: the targets NewFilterFS merged
+		fl = c18Follow(&c18FS{m: &MemFS{Roots: view}}, follow)
+		raws = append(raws, c11Targets(fl)...)
+	}
+	tbl := pmatchTable(raws, withPrefixes(viewPaths(view)))
+	return L(errClass(res.SendErr), errClass(res.RecvErr), Bool(res.Hung), L(announced...), RawListSx(snap), L(opens...), L(tbl...), fl)
+}
+
+// the paths in a c18Follow answer (#0 nil? (path ...))
+func c11Targets(fl Sx) []string {
+	if len(fl.L) == 3 && fl.L[0].U64() == 0 {
+		return sxStrings(fl.L[2])
+	}
+	return nil
+}
+
+// kind 1104: kind 1103 for a FilterOpt that combines IncludePatterns / ExcludePatterns with
+// FollowPaths (no map function): the include list NewFilterFS assembles is order-sensitive.
+// input: (view include-raw exclude-raw follow-raw)
+// output: (#ffff) | (#0 fl exc ptable calls opens vverdict hverdict), fl = the real FollowLinks answer
+func run1104(in Sx) Sx {
+	defer quietStderr()()
+	return guardedC10(func() Sx {
+		view := SxView(in.L[0])
+		inc, exc, follow := sxStrings(in.L[1]), sxStrings(in.L[2]), sxStrings(in.L[3])
+		if len(follow) == 0 {
+			follow = nil
+		}
+		ffs, err := fsutil.NewFilterFS(&c18FS{m: &MemFS{Roots: view}}, &fsutil.FilterOpt{IncludePatterns: inc, ExcludePatterns: exc, FollowPaths: follow})
+		if err != nil {
+			return L(N(0xffff))
+		}
+		fs := fsutil.WithHardlinkReset(ffs)
+		var calls []Sx
+		var stats []*types.Stat
+		bad := false
+		err = fs.Walk(context.Background(), "/", func(p string, d gofs.DirEntry, err error) error {
+			if err != nil {
+				return err
+			}
+			fi, err := d.Info()
+			if err != nil {
+				return err
+			}
+			st := fi.Sys().(*types.Stat).CloneVT()
+			if st.Path != p {
+				bad = true
+			}
+			calls = append(calls, StatSx(st))
+			stats = append(stats, st)
+			return nil
+		})
+		if err != nil || bad {
+			return L(N(0xfffc))
+		}
+		var opens []Sx
+		var rec func(dir string, ns []*MNode)
+		rec = func(dir string, ns []*MNode) {
+			for _, n := range ns {
+				p := n.Name
+				if dir != "" {
+					p = dir + "/" + n.Name
+				}
+				if os.FileMode(n.Stat.Mode)&os.ModeType == 0 {
+					allowed := 0
+					if rc, err := fs.Open(p); err == nil {
+						b, rerr := io.ReadAll(rc)
+						rc.Close()
+						allowed = 2
+						if rerr == nil && bytes.Equal(b, n.Content) {
+							allowed = 1
+						}
+					}
+					opens = append(opens, L(S(p), NI(allowed)))
+				}
+				rec(p, n.Kids)
+			}
+		}
+		rec("", view)
+		es, err2 := patsSx(exc)
+		if err2 != nil {
+			return L(N(0xfffb))
+		}
+		fl := L()
+		raws := append(append([]string{}, inc...), exc...)
+		if follow != nil {
+			fl = c18Follow(&c18FS{m: &MemFS{Roots: view}}, follow)
+			raws = append(raws, c11Targets(fl)...)
+		}
+		tbl := pmatchTable(raws, withPrefixes(viewPaths(view)))
+		v := &fsutil.Validator{}
+		hv := &fsutil.Hardlinks{}
+		return L(N(0), fl, es, L(tbl...), L(calls...), L(opens...), c11Verdict(stats, v.HandleChange), c11Verdict(stats, hv.HandleChange))
+	})
 }
 
 // c11Verdict feeds a STAT sequence to a fresh real validator: () accepted, (#i) first rejected index
@@ -252,6 +356,148 @@ func c11NearPrefixList(r *Rng, paths []string, side byte) []string {
 		}
 	}
 	return out
+}
+
+
+// ---- FilterOpt with FollowPaths: the include list NewFilterFS assembles is order-sensitive ----
+
+// c11FollowView: a view with hard-link groups in which some entries are symlinks to entries that
+// exist (files and directories, relative and absolute targets)
+func c11FollowView(r *Rng, names []string) []*MNode {
+	v := GenView(r, TreeOpts{MaxEntries: 6 + r.Intn(10), MaxDepth: 3, Names: names, Types: r.Chance(30), HardLinks: true})
+	if r.Chance(40) {
+		c11LinkGroups(r, v, 30)
+	}
+	type ent struct {
+		n    *MNode
+		path string
+	}
+	var all []ent
+	named := map[string]bool{}
+	var walk func(dir string, ns []*MNode)
+	walk = func(dir string, ns []*MNode) {
+		for _, k := range ns {
+			p := k.Name
+			if dir != "" {
+				p = dir + "/" + k.Name
+			}
+			all = append(all, ent{k, p})
+			if k.Stat.Linkname != "" && c11Plain(k.Stat.Mode) {
+				named[k.Stat.Linkname] = true
+			}
+			walk(p, k.Kids)
+		}
+	}
+	walk("", v)
+	want := 1 + r.Intn(3)
+	for try := 0; try < 12 && want > 0 && len(all) > 1; try++ {
+		e := Pick(r, all)
+		if e.n.IsDir() || e.n.Stat.Linkname != "" || named[e.path] {
+			continue
+		}
+		t := Pick(r, all)
+		if t.path == e.path {
+			continue
+		}
+		target := "/" + t.path
+		if r.Chance(60) {
+			target = c18Rel(c18Parent(e.path), t.path)
+		}
+		e.n.Stat = &types.Stat{Mode: uint32(os.ModeSymlink | 0777), Linkname: target, Size: int64(len(target)), ModTime: e.n.Stat.ModTime}
+		e.n.Content = nil
+		want--
+	}
+	return v
+}
+
+// c11FollowCase: (include, exclude, follow) for a view: include lists with '!' exceptions AFTER
+// positive patterns (order-sensitive), FollowPaths naming links, paths through links, plain paths
+func c11FollowCase(r *Rng, v []*MNode, classes map[string]int) (inc, exc, follow []string) {
+	paths := viewPaths(v)
+	var links, dirs []string
+	for _, st := range WalkEntries(v) {
+		if os.FileMode(st.Mode)&os.ModeSymlink != 0 {
+			links = append(links, st.Path)
+		}
+		if os.FileMode(st.Mode).IsDir() {
+			dirs = append(dirs, st.Path)
+		}
+	}
+	if len(paths) == 0 {
+		return nil, nil, nil
+	}
+	below := func(d string) []string {
+		var out []string
+		for _, p := range paths {
+			if strings.HasPrefix(p, d+"/") {
+				out = append(out, p)
+			}
+		}
+		return out
+	}
+	switch r.Intn(10) {
+	case 0: // FollowPaths only
+	case 1, 2, 3, 4, 5: // positive, exception below it, possibly a re-inclusion below the exception / elsewhere
+		pos := Pick(r, paths)
+		if len(dirs) > 0 && r.Chance(80) {
+			pos = Pick(r, dirs)
+		}
+		if r.Chance(25) {
+			pos = Pick(r, []string{"*", "**", splitPath(pos)[0] + "/**", splitPath(pos)[0]})
+		}
+		inc = append(inc, pos)
+		cands := below(strings.TrimSuffix(strings.TrimSuffix(pos, "/**"), "*"))
+		if len(cands) == 0 {
+			cands = paths
+		}
+		ex := Pick(r, cands)
+		inc = append(inc, "!"+ex)
+		if r.Chance(50) {
+			re := below(ex)
+			if len(re) > 0 && r.Chance(70) {
+				inc = append(inc, Pick(r, re))
+			} else {
+				q, _ := genPrefixPattern(r, paths)
+				inc = append(inc, q)
+			}
+		}
+		if r.Chance(30) {
+			inc = append(inc, "!"+Pick(r, paths))
+		}
+		classes["positive-then-exception"]++
+	default:
+		inc = genPatternList(r, paths, v, classes, 0)
+	}
+	if r.Chance(30) {
+		exc = genPatternList(r, paths, v, classes, 2)
+	}
+	for n := 1 + r.Intn(3); n > 0; n-- {
+		switch x := r.Intn(10); {
+		case x < 6 && len(links) > 0:
+			l := Pick(r, links)
+			if r.Chance(25) { // a path through the link
+				l = l + "/" + Pick(r, []string{"a", "b", "c", "d"})
+			}
+			follow = append(follow, l)
+		case x < 9:
+			follow = append(follow, Pick(r, paths))
+		default:
+			follow = append(follow, Pick(r, []string{"zz", "a/zz", "./a", "a/../b", "/a"}))
+		}
+	}
+	return inc, exc, follow
+}
+
+// c11FollowInDomain: false = late-shadow domain (K1) of the list handed to the matcher
+// (user patterns in order, then the targets the real FollowLinks returns) or of the exclude list
+func c11FollowInDomain(v []*MNode, inc, exc, follow []string) bool {
+	paths := viewPaths(v)
+	fl := c18Follow(&c18FS{m: &MemFS{Roots: v}}, follow)
+	stated := inc
+	if len(fl.L) == 3 && fl.L[0].U64() == 0 && !fl.L[1].IsTrue() {
+		stated = append(append([]string{}, inc...), c11Targets(fl)...)
+	}
+	return c11ModesAgree(stated, paths) && c11ModesAgree(exc, paths)
 }
 
 // c11Plain: the entries hardlinkFilter.Walk and the Hardlinks validator look at: everything that is
@@ -576,6 +822,47 @@ func genC11(g *Gen) {
 			}
 		}
 		g.EmitWith(0x1103, in, out, reset, cls)
+	}
+	// FilterOpt combining IncludePatterns (with '!' exceptions after positive patterns), ExcludePatterns
+	// and FollowPaths: Walk + Open + validators (kind 1104) and the transfer (kind 1102 with follow)
+	nf := g.Vol(900, 16000)
+	for i := 0; i < nf; i++ {
+		r := g.Rng
+		names := small
+		if i%3 == 0 {
+			names = []string{"a", "b", "ab", "c", "l"}
+		}
+		v := c11FollowView(r, names)
+		inc, exc, follow := c11FollowCase(r, v, classes)
+		if len(follow) == 0 {
+			continue
+		}
+		if !c11FollowInDomain(v, inc, exc, follow) {
+			skippedK1++
+			continue
+		}
+		exception := false
+		for j, q := range inc {
+			if j > 0 && strings.HasPrefix(strings.TrimSpace(q), "!") && !strings.HasPrefix(strings.TrimSpace(inc[0]), "!") {
+				exception = true
+			}
+		}
+		resolved := len(c11Targets(c18Follow(&c18FS{m: &MemFS{Roots: v}}, follow))) > 0
+		cls := "follow"
+		if exception {
+			cls += "+exception-after-positive"
+		}
+		if resolved {
+			cls += "+targets"
+		}
+		if len(exc) > 0 {
+			cls += "+exc"
+		}
+		if i%6 == 5 {
+			g.Emit(0x1102, L(ViewSx(v), stringsSx(inc), stringsSx(exc), stringsSx(follow)), exception && resolved, "e2e-"+cls)
+		} else {
+			g.Emit(0x1104, L(ViewSx(v), stringsSx(inc), stringsSx(exc), stringsSx(follow)), exception && resolved, cls)
+		}
 	}
 	g.Note("c11_pattern_classes", classes)
 	g.Note("c11_skipped_late_shadow_configurations", skippedK1)
